@@ -293,7 +293,7 @@ def run_raw(case, ctx):
 SUBCHECKS = [
     Sub("convert", convert_strategy, run_convert, quick=1000, thorough=12000, shards_quick=8,
         required={"material-after-inner-split": 60, "empty-non-final-alternative": 60, "empty-first-alternative": 40,
-                  "branch>=1000-points": 10, "nesting>=8": 10, "nesting>=1000": 1, "via:convert": 60, "via:call": 60,
+                  "branch>=1000-points": 10, "nesting>=8": 10, "nesting>=1000": 1, "via:convert": 30, "via:call": 30,
                   "has-colours-or-comments": 100, "comment-right-after-a-split-opens": 15, "comment-right-after-a-bar": 10, "annotated-document>16KB": 15, "heavily-annotated-document>70KB": 15, "converted-after-a-rejected-document": 200, "via:ast-types": 60,
                   "same-file-converted-three-times": 100, "label:AXON": 100, "label:DENDRITE": 100}),
     Sub("truncate", truncate_strategy, run_truncate, quick=400, thorough=5000, shards_quick=8,
